@@ -360,7 +360,10 @@ func (g *gen) acase() acaseT {
 	switch r.Intn(7) {
 	case 6:
 		// c.MustBind(&req): Bind's own error (binding or validation) goes to Fail
-		k.Call = callT{Kind: "mustbind", MB: r.Range(1, len(mbQueries)-1)}
+		k.Call = callT{Kind: "mustbind", MB: r.Range(1, len(mbQueries)+len(mbBodies)-1)}
+		if k.Call.MB >= len(mbQueries) {
+			k.Tail = "" // the body cases use the plain routes
+		}
 	case 0, 1, 2:
 		e := g.err(0)
 		k.Call = callT{Kind: "fail", Err: &e}
@@ -533,6 +536,9 @@ func fixedCases() []caseT {
 		add(acaseT{Wire: "r", Opts: []optT{{F: &f}}, Len: 3, Pos: 1, Mask: 3, Call: callT{Kind: "mustbind", MB: 1}})
 		add(acaseT{Wire: "s", Opts: []optT{{F: &f}}, Len: 2, Pos: 1, Mask: 1, Call: callT{Kind: "mustbind", MB: 4}})
 	}
+	// MustBind(WithStrict()) on a body with a field the struct does not have (422 from the binding step)
+	add(acaseT{Wire: "r", Len: 3, Pos: 1, Mask: 3, Call: callT{Kind: "mustbind", MB: len(mbQueries)}})
+	add(acaseT{Wire: "s", Opts: []optT{{F: &japi}}, Len: 2, Pos: 1, Mask: 1, Call: callT{Kind: "mustbind", MB: len(mbQueries) + 4}})
 	// an earlier negotiation in the request, then a second Accept field line, then the failure
 	add(acaseT{Wire: "r", Opts: neg, Accept: sp("text/html"), AcceptAdd: "application/vnd.api+json", Len: 3, Pos: 2, Mask: 3, Call: callT{Kind: "helper", Helper: 0, Err: boom}})
 	add(acaseT{Wire: "s", Opts: neg, Accept: sp("application/json;q=0.1"), AcceptAdd: "application/vnd.api+json", Len: 2, Pos: 1, Mask: 1, Call: callT{Kind: "fail", Err: boom}})
